@@ -33,7 +33,7 @@ class Interner:
         if nm is None:
             nm = "%s%d" % (kind, len(self.names))
             self.names[key] = nm
-            if kind == "s" and len(content) > 1000 and len(set(content)) == 1 and 32 < ord(content[0]) < 127 and content[0] != '"':
+            if kind == "s" and isinstance(content, str) and len(content) > 1000 and len(set(content)) == 1 and 32 < ord(content[0]) < 127 and content[0] != '"':
                 self.defs.append('Definition %s : string := rep_char "%s" %d%%N.' % (nm, content[0], len(content)))
             elif kind == "s":
                 self.defs.append("Definition %s : string := %s." % (nm, coq_string(content)))
@@ -45,8 +45,16 @@ class Interner:
 IN = Interner()
 
 
+ARMOR = "\x00hex:"
+
+
 def S(x):
-    return IN.get("s", x if x is not None else "")
+    """a string of a case; the harness prints byte strings that are not UTF-8 as "\\x00hex:<hex>" (encoding/json would replace the bytes)"""
+    if x is None:
+        x = ""
+    if x.startswith(ARMOR):
+        x = bytes.fromhex(x[len(ARMOR):])
+    return IN.get("s", x)
 
 
 def Z(n):
@@ -147,6 +155,10 @@ def tok(t):
     """one token of the harness (jx tokenizer) as a SpansJson.tok"""
     if t in TOKS:
         return TOKS[t]
+    if t.startswith(ARMOR):     # a token whose string is not UTF-8: the kind letter is inside the armour
+        b = bytes.fromhex(t[len(ARMOR):])
+        k = {"k": "TKey", "s": "TStr", "n": "TNum"}[chr(b[0])]
+        return "(%s %s)" % (k, IN.get("s", b[1:]))
     k = {"k": "TKey", "s": "TStr", "n": "TNum"}[t[0]]
     return "(%s %s)" % (k, S(t[1:]))
 
@@ -247,7 +259,11 @@ def cases_file(cases):
             coq_list([omore(sp.get("more")) for r in c["otlp"] for sc in (r["scopes"] or []) for sp in (sc or [])]),
             yread(c))
          for c in cases if c["fmt"] == "otlp"])
-    return HEADER + "\n".join(IN.defs) + "\n" + "\n".join(one) + "\n" + lst + cc + wc + tc
+    qc = "Definition qcases : list qcase := %s.\n" % coq_list(
+        ["(Build_qcase c%d %d%%nat %s %s)" % (c["id"], c["query_k"], coq_list([HX(x) for x in c.get("query_bad") or []]),
+                                             coq_list([HX(x) for x in c.get("query_type3") or []]))
+         for c in cases if c.get("query_k", -1) >= 0 and not flushed_error(c)])
+    return HEADER + "\n".join(IN.defs) + "\n" + "\n".join(one) + "\n" + lst + cc + wc + tc + qc
 
 
 def ids(s):
@@ -263,6 +279,7 @@ def eval_text(ck, name, cases_txt):
            "Definition WM := Eval vm_compute in (wirey_mismatches ycases ++ wirex_read_mismatches xcases)%list.\nPrint WM.\n"
            "Definition WR := Eval vm_compute in wirey_roundtrip_failures ycases.\nPrint WR.\n"
            "Definition YV := Eval vm_compute in yread_violations ycases.\nPrint YV.\n"
+           "Definition QM := Eval vm_compute in query_mismatches qcases.\nPrint QM.\n"
            "Definition CV := Eval vm_compute in chunk_spec_violations ccases.\nPrint CV.\n"
            "Definition TM := Eval vm_compute in tok_mismatches tcases.\nPrint TM.\n"
            "Definition TI := Eval vm_compute in tok_illformed tcases.\nPrint TI.\n"
@@ -273,7 +290,7 @@ def eval_text(ck, name, cases_txt):
         return None, out
     flat = " ".join(out.split())
     res = {}
-    for nm in ("M", "V", "CM", "CV", "WM", "WR", "TM", "TI", "TV", "XV", "YV"):
+    for nm in ("M", "V", "CM", "CV", "WM", "WR", "TM", "TI", "TV", "XV", "YV", "QM"):
         m = re.search(r"(?<![A-Z])" + nm + r" = \[(.*?)\]\s*: list Z", flat)
         if not m:
             return None, out
@@ -382,7 +399,7 @@ def run_spans(ck):
                   "case ids: %s; %s" % ([c["id"] for c in changed[:10]], changed[0]["retry_diff"][:300] if changed else ""))
     cases = [c for c in cases if not c.get("panic")]
     byid = {c["id"]: c for c in cases}
-    tot = {"M": [], "V": [], "R": [], "CM": [], "CV": [], "WM": [], "WR": [], "TM": [], "TI": [], "TV": [], "XV": [], "YV": []}
+    tot = {"M": [], "V": [], "R": [], "CM": [], "CV": [], "WM": [], "WR": [], "TM": [], "TI": [], "TV": [], "XV": [], "YV": [], "QM": []}
     # Coq spends ~0.1 s per request elaborating the literal: shards are evaluated by parallel coqc processes
     shard = 100
     heavy = [c for c in cases if size_of(c) > 40000]           # the > 64 KiB / > 1 MiB requests: a shard each
@@ -468,11 +485,14 @@ def run_spans(ck):
                   "and the model's read-back of events, status and the further fields = OutputQuery's" % notlp, not wm, "mismatching case ids: %s" % wm[:10])
     ck.obligation("every stored OTLP payload of the run lies in the domain of dec_enc_spany and dec_spany (enc_spany s x y) = (s, x, y) evaluates to true",
                   not wr, "case ids: %s" % wr[:10])
-    if wm and not viol and not mism:
+    if wm and not viol and not mism and not tot["YV"] and not tot["XV"]:
         w = min((byid[i] for i in wm), key=size_of)
         ck.violation({"property": PID, "kind": "model/implementation disagree on the bytes of the stored OTLP payload", "case": slim(w),
                       "payload_lengths": w.get("pay_lens"), "broken": "correspondence SpansWireY.enc_spany vs proto.Marshal in OTLPDecoder.Decode"},
                      no_input=True)
+    notpb = [c["id"] for c in cases if c["fmt"] == "otlp" and any(b != 10 for b in (c.get("pay_first") or []))]
+    ck.obligation("every stored OTLP payload begins with 0x0A (stored_payload_never_legacy_json: parseOTLP never takes a row of this writer for the legacy JSON form)",
+                  not notpb, "case ids: %s" % notpb[:10])
     xv = tot["XV"]
     nextra = sum(1 for c in cases if c["fmt"] == "otlp" for r in c["otlp"] for sc in (r["scopes"] or []) for sp in (sc or []) if sp.get("events") or sp.get("status"))
     ck.obligation("spec oracle on OTLP events and status: the k-th stored span of every request reads back with the events (time, name) and the status code "
@@ -559,6 +579,28 @@ def run_spans(ck):
         w = min(short, key=size_of)
         ck.violation({"property": PID, "kind": "OutputQuery over all rows of the request returned %d spans for %d rows" % (w["read_all"], len(w["read"])),
                       "case": w, "replay": "harness spans --cases <file holding the 'case' object on one line> --out /dev/stdout"})
+    # the spans of ONE call, all gathered before any is looked at, are the spans of the rows decoded one by one (a span keeping a reference into the
+    # parser OutputQuery reuses for every row would be overwritten by the rows after it)
+    rad = [c for c in cases if c.get("read_all_diff")]
+    ck.obligation("one OutputQuery call over all rows of a request returns, in order, exactly the spans its rows give when decoded one by one "
+                  "(ids, parent, name, kind, times, attributes, events, status, further fields; %d requests with >= 2 rows)"
+                  % sum(1 for c in cases if c.get("read_all", -1) >= 2), not rad,
+                  "case ids: %s; %s" % ([c["id"] for c in rad[:10]], rad[0]["read_all_diff"][:300] if rad else ""))
+    if rad and not viol:
+        w = min(rad, key=size_of)
+        ck.violation({"property": PID, "kind": "a span returned by a query over several stored rows differs from the span its row holds", "case": slim(w),
+                      "difference": w["read_all_diff"], "replay": "harness spans --cases <file holding the 'case' object on one line> --out /dev/stdout"})
+    qm = tot["QM"]
+    nq = sum(1 for c in cases if c.get("query_k", -1) >= 0)
+    ck.obligation("correspondence: model Spans.output_query (OutputQuery's loop: a row of an unknown payload type is passed over, the first row that does not decode "
+                  "ends the output) = the span ids one OutputQuery call returns when one stored row is made undecodable / given payload type 3 (%d requests x 2 variants)" % nq,
+                  not qm, "mismatching case ids: %s" % qm[:10])
+    if qm and not viol and not mism:
+        w = min((byid[i] for i in qm), key=size_of)
+        ck.violation({"property": PID, "kind": "model/implementation disagree on which spans a query returns when a stored row does not decode", "case": slim(w),
+                      "row": w.get("query_k"), "returned_with_bad_payload": w.get("query_bad"), "returned_with_type_3": w.get("query_type3"),
+                      "broken": "correspondence Spans.output_query vs TempoService.OutputQuery"}, no_input=True)
+    ck.extra["requests_with_query_loop_variants"] = nq
     # coverage
     distinct = set()
     hist = {}
@@ -573,7 +615,9 @@ def run_spans(ck):
                             "(1-4 spans, shuffled fields, 1-37 digit ids, string/number times incl. the *1000 overflow edge, endpoints, string and non-string "
                             "tags, repeated fields, one malformed field in 20%% incl. integers above 2^64, exponent/fraction forms and microseconds whose nanoseconds leave int64; "
                             "strings and member names written with encoding/json's escapes (50%%), with every non-ASCII character, '/' and control character as an escape "
-                            "incl. surrogate pairs (30%%) or additionally every third character as \\u00XX (20%%); the number -0; ports and annotation timestamps in "
+                            "incl. surrogate pairs (30%%) or additionally every third character as \\u00XX (20%%); one Zipkin string in twelve and one tag name in 25 is NOT UTF-8 "
+                            "(lone continuation byte, truncated sequence, Latin-1, encoded surrogate, overlong form, 0xFE 0xFF: written into the text as raw bytes; transported "
+                            "from the harness hex-armoured); the number -0; ports and annotation timestamps in "
                             "fraction / exponent / out-of-range forms; kind; 0-3 annotations with proper and improper members; on one NDJSON request in eight a tail "
                             "after a span object: garbage, a second object, a comma, a bracket, a scalar or whitespace), 30%% of the OTLP spans with 0-2 events "
                             "(time, name, attributes) and a status, 20%% with trace_state, dropped counts (0, 2^32-1, small, random), flags and 0-2 links (ids, state, attributes, count, flags; "
@@ -607,6 +651,10 @@ def run_spans(ck):
                          else "negative integer" if x.startswith("-") else "integer")
                     lex["number_tokens"][k] = lex["number_tokens"].get(k, 0) + 1
         lex["requests_with_annotations"] += 1 if ann else 0
+    nonutf = [c for c in cases if c["fmt"] != "otlp" and any(t.startswith(ARMOR) for ts in (c.get("toks") or []) for t in ts)]
+    lex["requests_with_strings_that_are_not_utf8"] = len(nonutf)
+    lex["such_requests_accepted"] = sum(1 for c in nonutf if not c["err"])
+    lex["tag_rows_with_a_key_or_value_that_is_not_utf8"] = sum(1 for c in nonutf for a in (c["tags"] or []) if a["k"].startswith(ARMOR) or a["v"].startswith(ARMOR))
     ck.extra["zipkin_token_streams"] = lex
     ck.extra["requests_with_retried_insert"] = sum(1 for c in cases if c.get("retry"))
     ck.extra["delivery_modes"] = {SEG[k]: sum(1 for c in cases if c.get("seg_mode", 0) == k) for k in SEG}
@@ -666,7 +714,7 @@ def run(ck):
         "it is compared, span by span, with the read-back of the protobuf form outside Coq",
         "C06: the Zipkin payload is a JSON TOKEN STREAM (SpansJson: the write path's walk, the read path's parse, fields, kind, annotations are Gallina over tokens); "
         "the tokenizers themselves (bytes -> tokens: whitespace, escape decoding, number scanning, UTF-8) are the oracle: jx on every element text, fastjson on every "
-        "stored payload, the two streams compared; strings are valid UTF-8 in the generator; an unpaired surrogate escape is the one known disagreement (finding zipkin-lone-surrogate)",
+        "stored payload, the two streams compared, strings that are not UTF-8 included (both readers hand the bytes on; one generated string in twelve); an unpaired surrogate escape is the one known disagreement (finding zipkin-lone-surrogate)",
         "C06: rows are observed as the ch-go columns (by column name) that the real insert services' AcquireColumns/ProcessRequest build from the "
         "parsers' output, and replayed as database rows to the read path; block transport and ClickHouse storage are not modelled (a stored row is "
         "assumed to be read back as written); the Date column is computed with zone offset 0 (UTC)",
